@@ -507,11 +507,17 @@ def gen_vdm_object(rng, kind=None, nmax=9):
     elif kind == 'long-lists':
         for k in STATE_KEYS:
             st[k] = st[k] + [pos(rng, 1, 9, 10) for _ in range(rng.randint(0, 2))]
+    # the other documented level numbers of the object (sensor level nz0, wind level nz10): anywhere in the column
     return dict(P=P, nzref=nzref, nzfor=nzfor, z=z, dz=dz, z0r=h / 10, disp=h / 2, st=st,
-                kind=kind, ptk=ptk)
+                kind=kind, ptk=ptk, nz0=rng.randint(1, max(1, nzref)), nz10=rng.randint(1, max(1, nzref)))
 
 
-def gen_step(rng, ob, T):
+TINY_DT = [F(1, 10 ** k) for k in (3, 6, 9, 12, 15, 20)]
+
+
+def gen_step(rng, ob, T, tiny_dt=False):
+    """One vdm step. `tiny_dt` (or one step in six anyway): a step of 1e-3 .. 1e-20 s, so that the diffusion
+    number Kt*dt/dz^2 handed to diffusion_equation is far below any absolute threshold (1e-10 and smaller)."""
     f = gen_forc(rng, T)
     if ob['kind'] == 'fpres0':
         f['pres'] = F(0)
@@ -519,6 +525,8 @@ def gen_step(rng, ob, T):
     if ob['kind'] == 'heat0':
         sens = F(0)
     dt = F(rng.choice([60, 300, 300, 600, 3600]))
+    if tiny_dt or rng.random() < 1.0 / 6:
+        dt = rng.choice(TINY_DT)
     return dict(forc=f, sens=sens, dt=dt)
 
 
@@ -541,6 +549,8 @@ def make_object(ob, R=None, conv=lambda x: x):
     obj.disp = conv(ob['disp'])
     obj.nzref = ob['nzref']
     obj.nzfor = ob['nzfor']
+    obj.nz0 = ob.get('nz0', 1)          # documented attributes vdm is not modelled to read
+    obj.nz10 = ob.get('nz10', 1)
     obj.ublPres = None
     for k in STATE_KEYS:
         setattr(obj, ATTR[k], [conv(v) for v in ob['st'][k]])
@@ -672,7 +682,7 @@ def write_meso(path, zm):
 def object_dict(obj, P):
     """Generator-side description of a constructed object (its actual attributes)."""
     return dict(P=P, nzref=obj.nzref, nzfor=obj.nzfor, z=list(obj.z), dz=list(obj.dz), z0r=obj.z0r,
-                disp=obj.disp, st=snapshot(obj), kind='constructed')
+                disp=obj.disp, st=snapshot(obj), kind='constructed', nz0=obj.nz0, nz10=obj.nz10)
 
 
 def real_grid_facts():
@@ -880,11 +890,13 @@ def run_coef(chk):
     pairs, vk, nviol, nor = [], {}, [0], [0]
     gpairs = []
 
-    def history(ob, obj, nsteps, tag):
+    def history(ob, obj, nsteps, tag, tiny_dt=False):
         T = ob['st']['temp'][0] if ob['st']['temp'] else F(300)
         for s in range(nsteps):
             pre = snapshot(obj)
-            step = gen_step(rng, ob, T)
+            step = gen_step(rng, ob, T, tiny_dt)
+            if step['dt'] < 1:
+                tag = tag.split('/dt<1s')[0] + '/dt<1s'
             line = line_vdm(ob, pre, step)
             r, te, eq = run_step(obj, ob, step)
             pairs.append((line, fmt_vdm(r)))
@@ -911,16 +923,24 @@ def run_coef(chk):
     for k in ('valid', 'heat0', 'nzref2', 'tall'):
         ob = gen_vdm_object(rng, kind=k, nmax=8)
         history(ob, make_object(ob), 2, ob['kind'])
+    for _ in range(5 if quick else 40):
+        ob = gen_vdm_object(rng, kind='valid', nmax=8)
+        history(ob, make_object(ob), 2, 'valid', tiny_dt=True)
     # through the real constructor: shipped grid (several inversion heights) and generated grids
     P = real_param(refHeight=F(150))
-    builds = [(real_param(refHeight=F(h)), z_meso_path()) for h in ((20, 150) if quick else
-                                                                   (10, 20, 45, 80, 150, 150, 200))]
+    # sensor heights: h_temp at the centre of the first level (2 m, every shipped file), below it, between levels,
+    # on a 10 m / 30 m mast (nz0 = 1, 1, 2, 3, 5 on the shipped grid); h_wind likewise
+    sensors = [(F(2), F(10)), (F(6), F(10)), (F(10), F(2)), (F(3, 2), F(30)), (F(30), F(6))]
+    builds = [(real_param(refHeight=F(h), tempHeight=sensors[i % 5][0], windHeight=sensors[i % 5][1]), z_meso_path())
+              for i, h in enumerate((20, 150, 150) if quick else (10, 20, 45, 80, 150, 150, 200, 150, 80, 45))]
     for i in range(3 if quick else 20):
         n = rng.randint(5, 12)
         zm = gen_meso(rng, n + rng.randint(2, 6))
         path = write_meso(os.path.join(chk.work(), 'z_meso_%d.txt' % i), zm)
         href = (zm[n - 1] + zm[n]) / 2 + rng.choice([F(0), F(1, 100), -F(1, 100)])
-        builds.append((real_param(refHeight=href, nightBLHeight=zm[2], tempHeight=F(2),
+        zc = [(zm[k] + zm[k + 1]) / 2 for k in range(4)]
+        builds.append((real_param(refHeight=href, nightBLHeight=zm[2],
+                                  tempHeight=[F(2), zc[0], (zc[0] + zc[1]) / 2, zc[2], zc[1] + F(1, 100)][i % 5],
                                   windHeight=zm[1]), path))
     for P, path in builds:
         obj = guarded(lambda: construct(P, pos(rng, 0.1, 3, 10), rq(rng, 280, 305, 10),
@@ -941,8 +961,11 @@ def run_coef(chk):
         rule='whole vdm steps of the fractionised real code vs Lean `Rsm.vdm` (pressure, real '
              'temperature, density profiles, diffusion_coefficient, diffusion_equation, wind '
              'profile with its caught ValueError, average pressure): histories of up to 3 steps on '
-             'ONE object (made with object.__new__, or by the real constructor on z_meso.txt / on '
-             'generated grids), new forcing each step, profiles rounded in place to 6 decimals '
+             'ONE object (made with object.__new__ - sensor / wind level numbers nz0, nz10 anywhere in 1..nzref - or '
+             'by the real constructor on z_meso.txt / on generated grids with the sensor height h_temp at, below '
+             'and above the centre of the first level: nz0 = 1, 2, 3, 5), new forcing each step (dt 60..3600 s, and one step in six - in some histories '
+             'every step - with dt = 1e-3 .. 1e-20 s, i.e. a diffusion number Kt*dt/dz^2 far below 1e-10), '
+             'profiles rounded in place to 6 decimals '
              'between steps; compared: tempProf, presProf, tempRealProf, densityProfC, '
              'densityProfS, windProf, ublPres, self.dlu, self.dld after every step; malformed '
              'objects (nzref = 0, 1, 2, short lists, zero temperature / constants / spacing, '
